@@ -866,7 +866,7 @@ def plan(tier, seed):
     descs = []
     # ---- Monitor 1: trees
     for m in (1, 2, 3):
-        _tree(descs, {"cls": "LRU", "max_size": m, "K": 3}, 7, 3)
+        _tree(descs, {"cls": "LRU", "max_size": m, "K": 3}, 7 if (m == 2 or not q) else 6, 3)
         _tree(descs, {"cls": "LRU", "max_size": m, "K": 4}, 6 if q else 7, 2 if q else 3)
         _tree(descs, {"cls": "LRU", "max_size": m, "K": 3}, 5 if q else 6, 1, diag=True)  # icontract diagnostic on
     _tree(descs, {"cls": "Simple", "max_size": None, "K": 3}, 6 if q else 7, 2)
@@ -882,7 +882,7 @@ def plan(tier, seed):
             _tree(descs, {"cls": "Hybrid", "max_size": m, "K": 4, "aw": 0.5, "dw": 0.5, "durs": [1.0, 2.0]}, 5, 2)
     for m in (1, 2, 3, None):
         for with_lru, lsz in ((False, 128), (True, 2), (True, 128)):
-            if q and m is None and with_lru:
+            if q and with_lru and (m is None or (lsz == 128 and m != 2)):
                 continue
             _tree(descs, {"cls": "Disk", "max_size": m, "K": 3, "with_lru": with_lru, "lru_size": lsz}, 4 if q else 5, 2)
             if m in ((3,) if q else (2, 3, None)) and lsz == (128 if not with_lru else 2):
